@@ -243,6 +243,7 @@ BUILTIN_FUNCS = {
     "isconfigtype": b_isconfigtype, "vars": b_vars,
 }
 BUILTIN_CTORS = {}
+CLASS_CALLS = {}
 
 
 # ====================================================================== str / bytes methods
@@ -1117,8 +1118,10 @@ def _concat_into(ex, st, target, a_items, a_len, b_items, b_len):
     new = w.fresh("cat_items", w.SORTS["items"])
 
     def inst(j, new=new, a_items=a_items, a_len=a_len, b_items=b_items, b_len=b_len):
+        # instantiated at j as an index of the result and as an index of the second operand
         return z3.And(z3.Implies(z3.And(j >= 0, j < a_len), z3.Select(new, j) == z3.Select(a_items, j)),
-                      z3.Implies(z3.And(j >= a_len, j < a_len + b_len), z3.Select(new, j) == z3.Select(b_items, j - a_len)))
+                      z3.Implies(z3.And(j >= a_len, j < a_len + b_len), z3.Select(new, j) == z3.Select(b_items, j - a_len)),
+                      z3.Implies(z3.And(j >= 0, j < b_len), z3.Select(new, j + a_len) == z3.Select(b_items, j)))
     st.schemas = st.schemas + [Schema("int", inst, "list-concat")]
     st.wr("$items", target, new)
     st.wr("$len", target, a_len + b_len)
@@ -1139,6 +1142,35 @@ def l_iadd(ex, st, recv, args, kwargs, cx):
         yield s1, (out if isinstance(out, Raise) else recv)
 
 
+def l_init(ex, st, recv, args, kwargs, cx):
+    """list.__init__(self[, sequence]): the list is emptied, then holds the items of the sequence in order"""
+    o = ex.o
+    if kwargs or len(args) > 1:
+        raise Unsupported("list.__init__ form")
+    st = st.clone()
+    r = o.r(recv)
+    if not args:
+        st.wr("$len", r, z3.IntVal(0))
+        yield st, o.none()
+        return
+    a = args[0]
+    if not (o.refcls(st, a, ("list", "tuple")) or (a.e is not None and o.entails(st, z3.Or(o.is_type(a.e, "ref:list"), o.is_type(a.e, "ref:tuple"))))):
+        raise Unsupported("list.__init__ with a non-sequence")
+    b = o.r(a)
+    n = o.seq_len(st, b)
+    items = st.rd("$items", b)
+    st.wr("$items", r, items)
+    st.wr("$len", r, n)
+    yield st, o.none()
+
+
+def c_list_extend(ex, st, args, kwargs, cx):
+    """list.extend(target, sequence): the unbound built-in"""
+    yield from l_extend(ex, st, args[0], args[1:], kwargs, cx)
+
+
+CONTAINER_METHODS[("list", "__init__")] = l_init
+CLASS_CALLS[("list", "extend")] = c_list_extend
 CONTAINER_METHODS[("list", "extend")] = l_extend
 CONTAINER_METHODS[("list", "__iadd__")] = l_iadd
 
@@ -1204,4 +1236,4 @@ def c_fromhex(ex, st, args, kwargs, cx):
         yield from ex.raise_new(b, "ValueError")
 
 
-CLASS_CALLS = {("bytes", "fromhex"): c_fromhex}
+CLASS_CALLS[("bytes", "fromhex")] = c_fromhex
